@@ -13,7 +13,7 @@ META = {
                    'dereferenced - never ordered, subtracted or formatted. R16.4 profile independence: no reachable behaviour is guarded '
                    'only by debug assertions / overflow checks (facts of the default and the release-like configuration are compared). '
                    'R16.5 inventory of unsafe impl Send/Sync.',
-    'not_decided': ['agreement of actual results across threads and orders (needs runs)', 'determinism of std formatting'],
+    'not_decided': ['whether a debug_assert! that no rule proves can fail (accepted as an assumption when its condition has no side effect and the function has no unsafe operation; counted under discharge class DA)', 'agreement of actual results across threads and orders (needs runs)', 'determinism of std formatting'],
 }
 DENY = ['std::time', 'std::env', 'std::process', 'std::thread', 'std::fs', 'std::net', 'std::hash::random', 'std::collections::hash', 'std::io::stdio::stdin',
         'std::io::stdio::Stdin', 'std::sys::', 'core::fmt::Pointer', 'std::random', 'getrandom', 'rand::']
